@@ -213,6 +213,13 @@ func (p *Program) Method(rel, typeName, method string) *ssa.Function {
 	obj := sp.Pkg.Scope().Lookup(typeName)
 	tn, ok := obj.(*types.TypeName)
 	if !ok {
+		for o2, old := range renamedObj {
+			if t2, isT := o2.(*types.TypeName); isT && old == typeName && t2.Pkg() == sp.Pkg {
+				tn, ok = t2, true
+			}
+		}
+	}
+	if !ok {
 		return nil
 	}
 	named, ok := tn.Type().(*types.Named)
@@ -248,7 +255,15 @@ func (p *Program) NamedType(rel, typeName string) *types.Named {
 	}
 	tn, ok := sp.Pkg.Scope().Lookup(typeName).(*types.TypeName)
 	if !ok {
-		return nil
+		// renamed since the baseline?
+		for obj, old := range renamedObj {
+			if t2, isT := obj.(*types.TypeName); isT && old == typeName && t2.Pkg() == sp.Pkg {
+				tn, ok = t2, true
+			}
+		}
+		if !ok {
+			return nil
+		}
 	}
 	n, _ := types.Unalias(tn.Type()).(*types.Named)
 	return n
@@ -371,6 +386,44 @@ func (p *Program) funcOfExpr(pkg *packages.Package, g *ssa.Global, e ast.Expr) *
 	return nil
 }
 
+// funcOfInit reads a function-valued table element off the package initialiser's SSA
+// (covers instantiations of generic functions, which have no single AST function).
+func (p *Program) funcOfInit(g *ssa.Global, key constant.Value) *ssa.Function {
+	init := g.Pkg.Func("init")
+	if init == nil {
+		return nil
+	}
+	var m ssa.Value
+	allInstrs(init, func(in ssa.Instruction) {
+		if st, ok := in.(*ssa.Store); ok && st.Addr == ssa.Value(g) {
+			m = st.Val
+		}
+	})
+	if m == nil {
+		return nil
+	}
+	var out *ssa.Function
+	allInstrs(init, func(in ssa.Instruction) {
+		mu, ok := in.(*ssa.MapUpdate)
+		if !ok || mu.Map != m {
+			return
+		}
+		kc, ok := mu.Key.(*ssa.Const)
+		if !ok || kc.Value == nil || kc.Value.ExactString() != key.ExactString() {
+			return
+		}
+		switch v := mu.Value.(type) {
+		case *ssa.Function:
+			out = v
+		case *ssa.MakeClosure:
+			if f, ok := v.Fn.(*ssa.Function); ok && len(v.Bindings) == 0 {
+				out = f
+			}
+		}
+	})
+	return out
+}
+
 // funcTable: for a constant table (see constTable) whose values are functions, key -> function.
 func (p *Program) funcTable(g *ssa.Global) map[string]*ssa.Function {
 	if _, ok := p.constTable(g); !ok {
@@ -462,6 +515,8 @@ func (p *Program) constTable(g *ssa.Global) (map[string]constant.Value, bool) {
 							}
 							p.presenceOnly[g][ktv.Value.ExactString()] = true
 							if fn := p.funcOfExpr(pkg, g, kv.Value); fn != nil {
+								p.funcTables[g][ktv.Value.ExactString()] = fn
+							} else if fn := p.funcOfInit(g, ktv.Value); fn != nil {
 								p.funcTables[g][ktv.Value.ExactString()] = fn
 							}
 						}
